@@ -1,5 +1,6 @@
 import Driver.Common
 import Model.Catalog
+import Model.CatalogBuild
 open Lean Drv Cat
 
 def nm (s : String) : Cat.Name := s.toList
@@ -268,6 +269,100 @@ def handle (j : Json) : Except String Json := do
       pure (Json.mkObj [("trace", jArr (goPop St.init members events)), ("members", final),
                         ("members_applies_only", alone),
                         ("members_valid", jBool (members.all (validCfgB sp)))])
+  | "construct" =>
+    -- the user's script: declared Controller objects, then the formula, then the central controller
+    let e ← exprOf (← j.getObjVal? "expr")
+    let decl ← (← getArr j "decl").toList.mapM fun d => do
+      let a ← asArr d
+      match a.toList with
+      | [n, sp] => pure (⟨nm (← asStr n), (← strList sp).map nm⟩ : Controller)
+      | _ => throw "bad-op"
+    match construct decl e with
+    | .error er => pure (Json.mkObj [("err", jStr er.tag)])
+    | .ok sp =>
+      pure (Json.mkObj [("controllers", jArr (sp.map fun c => jArr [jStr (sn c.name), jStrs (c.specs.map sn)])),
+                        ("number", jNat (numberOfConfigurations sp))])
+  | "itersubset" =>
+    -- SelectedExpressionsIterator(expression, chosen) started while the controllers show `start`
+    let e ← exprOf (← j.getObjVal? "expr")
+    match central e with
+    | .error er => pure (errJ er)
+    | .ok sp =>
+      let cfgOf (s : String) : Except String Config :=
+        match fromString (nm s) with
+        | .ok c => pure c
+        | .error _ => throw "bad-op"
+      let chosen ← (← strList (← j.getObjVal? "chosen")).mapM cfgOf
+      let start ← cfgOf (← getStr j "start")
+      match setConfiguration sp St.init start with
+      | .error er => pure (errJ er)
+      | .ok st =>
+        match iterVisited sp st chosen with
+        | .error er => pure (errJ er)
+        | .ok v => pure (Json.mkObj [("visited", jStrs (v.map fun c => sn (stringId c)))])
+  | "rewrite" =>
+    -- rename_elementary / fix_betas through the catalogs while `sels` is selected, then the formula
+    -- selected under `sels` and under `sels2`
+    let e ← exprOf (← j.getObjVal? "expr")
+    let names := (← strList (← j.getObjVal? "names")).map nm
+    let optName (k : String) : Except String (Option Cat.Name) :=
+      match j.getObjVal? k with
+      | .ok Json.null => pure none
+      | .ok v => do pure (some (nm (← asStr v)))
+      | .error _ => pure none
+    let pre ← optName "pre"
+    let suf ← optName "suf"
+    let f : LeafMap ← (do
+      match (← getStr j "kind") with
+      | "rename" => pure (renameMap names pre suf)
+      | "fix" => pure (fixMap names pre suf)
+      | _ => throw "bad-op")
+    match central e with
+    | .error er => pure (errJ er)
+    | .ok sp =>
+      match mkConfig (← selsOf (← j.getObjVal? "sels")), mkConfig (← selsOf (← j.getObjVal? "sels2")) with
+      | .ok cfg, .ok cfg2 =>
+        match setConfiguration sp St.init cfg with
+        | .error er => pure (errJ er)
+        | .ok st =>
+          let e2 := e.mapSel st f
+          let rend : Option Expr → Json := fun o => match o with
+            | none => Json.null
+            | some x => jStr x.render
+          let after2 := match setConfiguration sp st cfg2 with
+            | .error er => errJ er
+            | .ok st2 => rend (e2.select st2)
+          pure (Json.mkObj [("selected", rend (e2.select st)),
+                            ("hand_rewritten", rend ((e.hand cfg).map (Expr.mapPlain f))),
+                            ("selected_other", after2),
+                            ("same_space", jBool (e2.ctrls == e.ctrls))])
+      | .error er, _ => pure (errJ er)
+      | _, .error er => pure (errJ er)
+  | "estimate" =>
+    -- BIOGEME.estimate_catalog: identifiers and formulas estimated, for all or for chosen configurations
+    let e ← exprOf (← j.getObjVal? "expr")
+    let maxN ← getNat j "max"
+    let cfgOf (s : String) : Except String Config :=
+      match fromString (nm s) with
+      | .ok c => pure c
+      | .error _ => throw "bad-op"
+    let selected : Option (List Config) ← (do
+      match j.getObjVal? "selected" with
+      | .ok Json.null => pure none
+      | .ok v => do pure (some (← (← strList v).mapM cfgOf))
+      | .error _ => pure none)
+    let rec betasOf : Expr → List String
+      | .beta n => [sn n]
+      | .neg a => betasOf a
+      | .bin _ a b => betasOf a ++ betasOf b
+      | _ => []
+    match estimateCatalog e maxN selected St.init with
+    | .error er => pure (Json.mkObj [("err", jStr er.tag)])
+    | .ok r =>
+      pure (Json.mkObj [("models", jArr (r.map fun (sid, f) =>
+        Json.mkObj [("id", jStr (sn sid)),
+                    ("formula", match f with | some x => jStr x.render | none => Json.null),
+                    ("betas", jStrs ((match f with | some x => betasOf x | none => []).eraseDups))]))])
   | _ => throw "bad-op"
 
 def main : IO Unit := Drv.run handle
